@@ -394,8 +394,8 @@ MISSING for the full statement:
 2. `PolicyOK` / `PolicyNodup` / `PolicyInjective` instances for smoothed aggregation and Ruge–Stüben (both return
    `R = transpose(P)`; `built_apply_spd_contracting` applies verbatim once their `P` is shown well formed, duplicate free
    and injective), `smoothed_aggr_emin` (`R ≠ Pᵀ`), `block_size > 1`;
-3. weak diagonal dominance of the coarse matrices (Jacobi, SPAI-0) is a hypothesis (`hQ`), not derived from the fine
-   matrix being an M-matrix;
+3. weak diagonal dominance of the coarse matrices (Jacobi, SPAI-0) is a hypothesis (`hQ`) here; it is derived from the fine
+   matrix being a Z-matrix with non-negative row sums in `C02d.model_amg_mmatrix_spd_contracting`;
 4. ILU-type and Chebyshev smoothers (no smoothing inequality in C02b);
 5. the skyline instance of `hdirect` is `Bridge.skyline_directExact`; it is plugged in by `C02d.model_amg_skyline_spd_contracting`
    (`Properties/C02d.lean`), for every permutation ordering (the Cuthill–McKee ordering itself is checked, not modelled);
